@@ -22,7 +22,7 @@ BUDGET = {"quick": 150, "thorough": 480}
 SHARDS = {"quick": 1, "thorough": 16}
 SHM_LEAK_IS_VIOLATION = False
 WATCHDOG_FACTOR = 5
-MARKS = [None, "raise_before", "raise_after"]
+MARKS = [None, "raise_before", "raise_after", "raise_custom"]
 COMBO_ALL = ("cms", "hh", "hll")
 
 
@@ -88,6 +88,30 @@ def run_spawned_case(case, ctx, mon):
         P.cleanup_spawned(out)
 
 
+def run_spawned_raise_case(case, ctx, mon):
+    """Real spawned run in which the callback raises on some items: it must terminate and return the rest."""
+    out = P.run_spawned(case, timeout_s=case.get("timeout", 600))
+    det = dict(n_workers=case["n_workers"], n_items=len(case["items"]), wall=round(out["wall"], 1))
+    try:
+        if out["timed_out"]:
+            if out.get("progress", 1.0) < 0.05:
+                mon.check(False, "parallel_add-terminates-when-callbacks-raise(spawned)", progress_cpu_s=out.get("progress"), log=out["log_tail"][-500:], **det)
+            mon.inconclusive.append("spawned raising-callback run exceeded its budget but was still consuming CPU")
+            return
+        r = out["result"]
+        mon.check(r is not None and r.get("outcome") == "returned", "raising-callback=>parallel_add-still-returns", outcome=(r or {}).get("outcome"),
+                  exc=(r or {}).get("exc"), log=out["log_tail"][-400:], **det)
+        s = sk()
+        combo = tuple(case["combo"])
+        loaders = {"cms": s.countmin.load, "hh": s.HeavyHitters.load, "hll": s.HyperLogLog.load}
+        sketches = {name: loaders[name](f) for name, f in zip(combo, r["files"])}
+        P.check_result(mon, sketches, combo, case["args"], case["items"], det)
+        mon.count("spawned_raising_runs_completed")
+        mon.nontrivial(True)
+    finally:
+        P.cleanup_spawned(out)
+
+
 def spawned_death_case(rng, nw, kth, how=None):
     keys = key_family(rng, 6, 0, 8)
     n_items = 2 * nw + 3
@@ -107,6 +131,13 @@ def gen_cases(ctx):
     for j, (nw, kth, how) in enumerate(plan):
         if q or j % ns == sh:
             yield spawned_death_case(rng, nw, kth, how)
+    if not q and sh == ns - 2:
+        # a user exception that pickle cannot rebuild from its args, followed by a few hundred more items (enough log
+        # traffic to fill a pipe): parallel_add must still come back with everything else
+        keys = key_family(rng, 8, 0, 8)
+        items = P.gen_items(rng, 400, keys, marks={0: "raise_custom", 7: "raise_custom"})
+        yield {"type": "spawned_raise", "items": items, "n_workers": 2, "combo": list(COMBO_ALL), "args": P.gen_args(rng, COMBO_ALL, "linear"),
+               "timeout": 600, "item_kind": "dict"}
     # --- exhaustive: mark vectors x schedules
     n_items, n_workers = (3, 2) if q else (4, 3)
     base = ctx.rng("exh")
@@ -148,6 +179,8 @@ def run_case(case, ctx, mon):
         run_inproc_case(case, ctx, mon)
         if "exhaustive" in case:
             mon.count("exhaustive_fault_x_schedule_cases")
+    elif case["type"] == "spawned_raise":
+        run_spawned_raise_case(case, ctx, mon)
     else:
         run_spawned_case(case, ctx, mon)
 
@@ -169,7 +202,7 @@ def replay(case, ctx, mon):
 
 
 def floors(mon, ctx):
-    mon.floor("exhaustive fault x schedule cases", mon.counters["exhaustive_fault_x_schedule_cases"], 27 * 24 if ctx.quick else 81 * 360)
+    mon.floor("exhaustive fault x schedule cases", mon.counters["exhaustive_fault_x_schedule_cases"], 64 * 24 if ctx.quick else 256 * 360)
     mon.floor("in-process runs with marked items", mon.counters["inproc_runs_with_marked_items"], 200)
     mon.floor("in-process simulated deaths", mon.counters["inproc_death_runs"], 20)
     mon.floor("real death runs completed", mon.counters["spawned_death_runs_completed"], 1)
